@@ -6,6 +6,7 @@ from ..contracts import flux as CF, process as CP, membrane as CM
 from ..loops import segments, Head
 
 ID = "C20"
+FALLBACK_N = (6, 40)        # native fallback corpus sizes (quick, thorough): these native cases are expensive
 FRAME_SENSITIVE = True        # the statement relates several calls / call histories: a certain write to state that outlives a call is a violation even where the engine cannot follow its effect
 MIN_OBLIGATIONS = 60
 LEVEL = 'proof'
